@@ -29,3 +29,128 @@ theorem name_window_decoder_eq (l : Bytes) : nameDec l = nameDecSpec l := by
     · rename_i a b c t; exact absurd rfl (h a b c t)
     · rfl
   all_goals (unfold nameDecSpec; simp_all +zetaDelta [nameDecSpec])
+
+/-! ## names: every `#hh`/raw spelling of a byte string without null bytes decodes to it -/
+
+theorem hexDigitOf_ok : ∀ n : Fin 16, ∀ up : Bool,
+    isHexDigit (hexDigitOf n.val up) = true ∧ hexVal (hexDigitOf n.val up) = UInt8.ofNat n.val := by
+  decide
+
+theorem byte_split (b : UInt8) : 16 * UInt8.ofNat (b.toNat / 16) + UInt8.ofNat (b.toNat % 16) = b := by
+  apply UInt8.toNat_inj.mp
+  have := b.toNat_lt
+  simp [UInt8.toNat_add, UInt8.toNat_mul, UInt8.toNat_ofNat]
+  omega
+
+theorem escape_decodes (b : UInt8) (u1 u2 : Bool) :
+    isHexDigit (hexDigitOf (b.toNat / 16) u1) = true ∧ isHexDigit (hexDigitOf (b.toNat % 16) u2) = true ∧
+    16 * hexVal (hexDigitOf (b.toNat / 16) u1) + hexVal (hexDigitOf (b.toNat % 16) u2) = b := by
+  have hb := b.toNat_lt
+  have h1 := hexDigitOf_ok ⟨b.toNat / 16, by omega⟩ u1
+  have h2 := hexDigitOf_ok ⟨b.toNat % 16, by omega⟩ u2
+  refine ⟨h1.1, h2.1, ?_⟩
+  rw [h1.2, h2.2]
+  exact byte_split b
+
+theorem nameBody_cons (x : UInt8) (t : Bytes) (c : Ch) :
+    ∃ raw u1 u2 c', (nameBody (x :: t) c).1 = encByte x raw u1 u2 ++ (nameBody t c').1 :=
+  ⟨_, _, _, _, rfl⟩
+
+theorem encByte_cases (x : UInt8) (raw u1 u2 : Bool) :
+    (encByte x raw u1 u2 = [x] ∧ isRegularByte x = true ∧ x ≠ 35) ∨
+    (encByte x raw u1 u2 = [35, hexDigitOf (x.toNat / 16) u1, hexDigitOf (x.toNat % 16) u2]) := by
+  unfold encByte
+  split
+  · rename_i h
+    simp only [Bool.and_eq_true, bne_iff_ne, ne_eq] at h
+    exact Or.inl ⟨rfl, h.1.1, h.1.2⟩
+  · exact Or.inr rfl
+
+/-- a spelling of fewer than three bytes is all raw, hence equal to the name -/
+theorem nameBody_short (b : Bytes) (c : Ch) (h : (nameBody b c).1.length < 3) : (nameBody b c).1 = b := by
+  induction b generalizing c with
+  | nil => rfl
+  | cons x t ih =>
+    obtain ⟨raw, u1, u2, c', hc⟩ := nameBody_cons x t c
+    rw [hc] at h ⊢
+    rcases encByte_cases x raw u1 u2 with ⟨he, -, -⟩ | he
+    · rw [he] at h ⊢
+      simp only [List.cons_append, List.nil_append, List.length_cons] at h
+      rw [ih c' (by omega)]
+      rfl
+    · rw [he] at h; simp only [List.cons_append, List.length_cons] at h; omega
+
+theorem nameBody_head_raw (x : UInt8) (t : Bytes) (c : Ch) :
+    (∃ r, (nameBody (x :: t) c).1 = x :: r ∧ isRegularByte x = true ∧ x ≠ 35 ∧ ∃ c', r = (nameBody t c').1) ∨
+    (∃ u1 u2 c', (nameBody (x :: t) c).1 =
+        35 :: hexDigitOf (x.toNat / 16) u1 :: hexDigitOf (x.toNat % 16) u2 :: (nameBody t c').1) := by
+  obtain ⟨raw, u1, u2, c', hc⟩ := nameBody_cons x t c
+  rcases encByte_cases x raw u1 u2 with ⟨he, h1, h2⟩ | he
+  · left; rw [hc, he]; exact ⟨_, rfl, h1, h2, c', rfl⟩
+  · right; rw [hc, he]; exact ⟨u1, u2, c', rfl⟩
+
+/-- **`name_spelling_decodes`**: for every byte string without a null byte and every choice of
+    raw vs `#hh` per byte and of hex digit case, the decoder returns the byte string. -/
+theorem name_spelling_decodes (b : Bytes) (c : Ch) (hb : okKey b = true) :
+    nameDec (nameBody b c).1 = some b := by
+  rw [name_window_decoder_eq]
+  induction b generalizing c with
+  | nil => simp [nameBody, nameDecSpec]
+  | cons x t ih =>
+    have hx : x ≠ 0 ∧ okKey t = true := by
+      simp only [okKey, List.all_cons, Bool.and_eq_true, bne_iff_ne, ne_eq] at hb
+      exact ⟨hb.1, by simpa [okKey] using hb.2⟩
+    by_cases hlen : (nameBody (x :: t) c).1.length < 3
+    · have := nameBody_short (x :: t) c hlen
+      rw [this]
+      rw [this] at hlen
+      unfold nameDecSpec
+      split
+      · rename_i heq; rw [heq] at hlen; simp only [List.length_cons] at hlen; omega
+      · rfl
+    · rcases nameBody_head_raw x t c with ⟨r, hr, hreg, h35, c', hc'⟩ | ⟨u1, u2, c', hr⟩
+      · rw [hr] at hlen ⊢
+        match r, hc' with
+        | [], _ => simp at hlen
+        | [_], _ => simp at hlen
+        | y :: z :: r', hc' =>
+          unfold nameDecSpec
+          have : ¬ ((x == 35 && isHexDigit y && isHexDigit z) = true) := by simp [h35]
+          simp only [this, if_false]
+          rw [hc', ih c' hx.2]
+          rfl
+      · rw [hr]
+        unfold nameDecSpec
+        have e := escape_decodes x u1 u2
+        simp only [e.1, e.2.1, e.2.2, beq_self_eq_true, Bool.and_self, if_true]
+        have : ¬ ((x == 0) = true) := by simp [hx.1]
+        simp only [this, if_false]
+        rw [ih c' hx.2]
+        rfl
+
+/-- the whole name token followed by any context that starts with a terminator (or is empty) -/
+theorem name_roundtrip (b : Bytes) (c : Ch) (ctx : Bytes) (hb : okKey b = true)
+    (hctx : ∀ y, ctx.head? = some y → isNameTerm y = true)
+    (hbody : ∀ y ∈ (nameBody b c).1, isNameTerm y = false) :
+    nameP (47 :: (nameBody b c).1 ++ ctx) 0 = (.ok ⟨b, 0, (nameBody b c).1.length + 1⟩, (nameBody b c).1.length + 1) := by
+  unfold nameP
+  have hspan : untilB isNameTerm (47 :: (nameBody b c).1 ++ ctx) (0 + 1) = ((nameBody b c).1, (nameBody b c).1.length + 1) := by
+    unfold untilB allowed
+    have hd : List.drop (0 + 1) (47 :: (nameBody b c).1 ++ ctx) = (nameBody b c).1 ++ ctx := rfl
+    rw [hd]
+    have : List.takeWhile (fun b => !isNameTerm b) ((nameBody b c).1 ++ ctx) = (nameBody b c).1 := by
+      rw [List.takeWhile_append_of_pos]
+      · cases ctx with
+        | nil => simp
+        | cons y t => simp [List.takeWhile_cons, hctx y rfl]
+      · intro y hy; simp [hbody y hy]
+    rw [this]; simp [Nat.add_comm]
+  have hp : peek (47 :: (nameBody b c).1 ++ ctx) 0 = some 47 := rfl
+  simp only [hp, bne_self_eq_false, Bool.false_eq_true, if_false]
+  rw [hspan]
+  simp only [name_spelling_decodes b c hb]
+
+example : nameDec [65, 35, 52, 50, 35, 50, 102] = some [65, 66, 47] := by
+  rw [name_window_decoder_eq]; simp [nameDecSpec, isHexDigit, isDigit, hexVal]
+example : nameDec [35, 48, 48] = none := by
+  rw [name_window_decoder_eq]; simp [nameDecSpec, isHexDigit, isDigit, hexVal]
